@@ -138,8 +138,10 @@ class Run:
     (default: Ok(value-of tag)); events are recorded in order."""
 
     def __init__(self, w, answers=None, truths=None, lookups=None, set_result=None, follow=(), tail_answers=None, epc_answers=None,
-                 asp_answers=None, stub_eval_all=False):
+                 asp_answers=None, stub_eval_all=False, apply_answers=None, builtin_answers=None):
         self.stub_eval_all = stub_eval_all
+        self.apply_answers = list(apply_answers or [])
+        self.builtin_answers = list(builtin_answers or [])
         self.rc_count = 1
         self.w = w
         self.answers = answers or {}
@@ -193,6 +195,8 @@ class Run:
             return NOT
         if c == w.ap.name and w.ap.name not in self.follow:
             self.events.append(("apply", a0, a[1] if len(a) > 1 else None, a[2] if len(a) > 2 else None))
+            if self.apply_answers:
+                return self.apply_answers.pop(0)
             return ok(Tok("result-of-apply", "r"))
         if c == w.asp.name and w.asp.name not in self.follow:
             self.events.append(("apply-user",) + tuple(a))
@@ -203,6 +207,8 @@ class Run:
             return ok(r)
         if c == "values::BuiltinProcedureBody::apply" or c.endswith("BuiltinProcedureBody::apply"):
             self.events.append(("apply-builtin",) + tuple(a))
+            if self.builtin_answers:
+                return self.builtin_answers.pop(0)
             return ok(Tok("value-of", "builtin-result"))
         if c == w.epc.name and w.epc.name not in self.follow:
             self.events.append(("eval-tail-call",) + tuple(a))
@@ -397,7 +403,7 @@ def trampoline_table(w):
     """apply_procedure where the first application ends in a pending tail call to (P2 args2): the next turn must apply P2 to
     args2 with P2's own arity checked again; nothing of turn 1 is reused."""
     rows = []
-    for second, k2 in (("user-ok", 1), ("user-arity", 2), ("builtin", 1), ("self-arity", 2)):
+    for second, k2 in (("user-ok", 1), ("user-arity", 2), ("builtin", 1), ("self-arity", 2), ("same-code-other-env", 1)):
         cenv1, cenv2, caller = Frame(None, "closure-env-1"), Frame(None, "closure-env-2"), Frame(None, "caller-env")
         sp1 = w.scheme_procedure(w.formals(["a"]), [], [w.sym("B1")])
         sp2 = w.scheme_procedure(w.formals(["x"]), [], [w.sym("B2")])
@@ -407,6 +413,11 @@ def trampoline_table(w):
             p2 = w.named(w.proc, "Builtin", [[Tok("name", "builtin-name"), params2, Tok("body", "builtin-body")]])
         elif second == "self-arity":
             p2, sp2, cenv2 = p1, sp1, cenv1          # the procedure tail-calls itself, with one argument too many
+        elif second == "same-code-other-env":
+            # two closures of ONE lambda expression (a procedure made twice by the same maker): equal code, different captured
+            # environments; the second turn belongs to the second closure
+            sp2 = sp1
+            p2 = w.user(sp1, cenv2)
         else:
             p2 = w.user(sp2, cenv2)
         args2 = [Tok("arg", "W%d" % i) for i in range(1, k2 + 1)]
@@ -884,6 +895,131 @@ def rule_body_errors(ctx, rule):
     return v.decided
 
 
+def _located(payload, loc):
+    e = Enum(0, [payload, loc])
+    e.name, e.adt = "Located", "error::Located"
+    return e
+
+
+def error_location_table(w):
+    """an error that reaches the evaluator WITHOUT a location (a builtin's type / range / arity error): what location does it leave
+    eval_expression / apply_procedure with?  Rows: the callee of a non-tail call fails; a builtin applied by apply_procedure fails;
+    a form of a user procedure's body fails.  Each row also with an error that has a location of its own."""
+    rows = []
+    for site in ("call/callee-fails", "apply/builtin-fails", "apply/body-form-fails"):
+        for own in (False, True):
+            first_loc = w.nloc
+            payload = Tok("error-data", "EC")
+            own_loc = some([7, 7]) if own else none()
+            E = _located(payload, own_loc)
+            caller, cenv = Frame(None, "caller-env"), Frame(None, "closure-env")
+            try:
+                if site == "call/callee-fails":
+                    expr = w.call(w.sym("OP"), [w.sym("A1")])
+                    r = Run(w, answers={"OP": ok(w.procedure_value(Tok("procedure", "P")))}, apply_answers=[err(E)])
+                    res = r.run(w.ee, [expr, caller])
+                elif site == "apply/builtin-fails":
+                    p = w.named(w.proc, "Builtin", [[Tok("name", "builtin-name"), w.formals(["x"]), Tok("body", "builtin-body")]])
+                    r = Run(w, builtin_answers=[err(E)])
+                    res = r.run(w.ap, [p, [Tok("arg", "V1")], caller])
+                else:
+                    sp = w.scheme_procedure(w.formals(["a"]), [], [w.sym("B1"), w.sym("B2")])
+                    r = Run(w, follow=[w.asp.name], answers={"B1": err(E)})
+                    res = r.run(w.ap, [w.user(sp, cenv), [Tok("arg", "V1")], caller])
+            except (absint.Stuck, absint.Loop) as e:
+                rows.append((site, own, {"stuck": str(e)}))
+                continue
+            handed = {machine.key_of(some([100 + i, 1])) for i in range(first_loc + 1, w.nloc + 1)}
+            rows.append((site, own, {"result": res, "payload": payload, "own_loc": own_loc, "handed_out": handed}))
+    return rows
+
+
+def library_nontail_native_call(repo=None):
+    """(procedure, call) — a procedure that scheme/base.sld defines in Scheme whose body holds, in operand position (so: not a tail
+    call), a call of car / cdr: the witness that library text is evaluated by the same evaluator with a failing builtin below it"""
+    from scm import library as L, derived
+    from scm.reader import Sym
+    try:
+        mf = derived.load(repo)
+        mf = mf[0] if isinstance(mf, tuple) else mf
+        lib = L.load(L.BASE, repo)
+    except Exception:
+        return None
+    for name in lib.def_order:
+        fm, body = lib.defs[name]
+        if fm is None:
+            continue
+        try:
+            cb = [L.core(mf, b) for b in body]
+        except Exception:
+            continue
+        for t in cb:
+            for sub in L.subterms(t):
+                if isinstance(sub, list) and len(sub) > 1 and isinstance(sub[0], Sym) and sub[0].name not in ("if", "lambda", "quote", "set!", "define"):
+                    for arg in sub[1:]:
+                        if isinstance(arg, list) and len(arg) == 2 and isinstance(arg[0], Sym) and arg[0].name in ("car", "cdr") \
+                                and isinstance(arg[1], Sym) and arg[1].name in fm[0]:
+                            return name, "(%s %s)" % (arg[0].name, arg[1].name), fm
+    return None
+
+
+def rule_error_locations(ctx, rule):
+    """an error without a location passes through the evaluator without acquiring the location of whatever expression is being
+    evaluated at that depth (the expression may be text of the bundled library: locations carry no source identity); an error with a
+    location keeps it"""
+    import os
+    fb = ctx.fb()
+    t = tables(fb)
+    w = t["w"]
+    if "error-locations" not in t:
+        t["error-locations"] = error_location_table(w)
+    decided = 0
+    witness = None
+    for site, own, d in t["error-locations"]:
+        key = "%s/%s" % (site, "located-error" if own else "unlocated-error")
+        where = mir_where(w.ee if site.startswith("call") else w.ap)
+        if "stuck" in d:
+            ctx.undecided(rule, key, "abstract evaluation could not follow the evaluator on this case (%s)" % d["stuck"], where)
+            continue
+        res = d["result"]
+        locd = [x for x in find_enum(res, "Located") if x.fields and x.fields[0] is d["payload"]]
+        if getattr(res, "name", None) != "Err" or not locd:
+            ctx.undecided(rule, key, "the failing sub-evaluation's error is not what comes out (%r): decided elsewhere (C08-propagation)" % (res,), where)
+            continue
+        loc = locd[0].fields[1] if len(locd[0].fields) > 1 else None
+        absent = loc is None or (isinstance(loc, Enum) and loc.variant == 0)
+        if own:
+            good = (not absent) and machine.key_of(loc) == machine.key_of(d["own_loc"])
+            decided += 1
+            ctx.inst(rule, key, {"keeps_its_location": bool(good)})
+            ctx.oblige(bool(good))
+            if not good:
+                ctx.report(rule, key, "an error that has a location of its own leaves the evaluator with the location %r" % (loc,), where)
+            continue
+        stamped = (not absent) and isinstance(loc, Enum) and machine.key_of(loc) in d["handed_out"]
+        if not absent and not stamped:
+            ctx.undecided(rule, key, "the unlocated error comes out with a location (%r) that is none of the expressions' in this row" % (loc,), where)
+            continue
+        decided += 1
+        ctx.inst(rule, key, {"location_after": "absent" if absent else "an expression's of this evaluation"})
+        if stamped:
+            if witness is None:
+                witness = library_nontail_native_call(os.environ.get("VERIF_REPO", "/repo")) or False
+            if not witness:
+                ctx.undecided(rule, key, "an unlocated error takes the location of an expression under evaluation; no library procedure "
+                                         "with a failing builtin call in its body was found to show that this can be library text", where)
+                continue
+            name, call, fm = witness
+            ctx.oblige(False)
+            ctx.report(rule, key, "an error raised without a location (a builtin's type / range error) takes the location of the expression "
+                       "being evaluated where it passes; that expression can be text of the bundled library — %s in the body of %s "
+                       "(scheme/base.sld) — whose line/column is then reported under the program's file name, outside the failing form"
+                       % (call, name), where)
+        else:
+            ctx.oblige(True)
+    return decided
+
+
 def rule_trampoline(ctx, rule, aspects):
     """aspects ⊆ {rebind, arity, env}"""
     fb = ctx.fb()
@@ -958,7 +1094,7 @@ def rule_trampoline(ctx, rule, aspects):
         if "rebind" in aspects:
             checks.append((first_ok, "the first turn does not apply the initial procedure"))
             checks.append((len(etc) == 1, "the pending tail call is evaluated %d times (expected once)" % len(etc)))
-            if second == "user-ok":
+            if second in ("user-ok", "same-code-other-env"):
                 checks.append((len(au) == 2 and au[1][1] is d["sp2"][0] and au[1][2] is d["sp2"][1] and au[1][3] is d["sp2"][2],
                                "the second turn of the trampoline does not run the procedure the tail call evaluated to"))
                 checks.append((len(au) == 2 and isinstance(au[1][5], list) and len(au[1][5]) == 1 and au[1][5][0] is d["args2"][0],
